@@ -89,7 +89,13 @@ def run(units, repo, tier, jobs=4):
     fcntl.flock(lock, fcntl.LOCK_EX)
     env = dict(os.environ)
     env['CARGO_NET_OFFLINE'] = 'true'
-    env['CARGO_TARGET_DIR'] = TARGET
+    target = TARGET
+    if os.path.abspath(repo).rstrip('/') != '/repo':
+        # a scratch tree gets its own Kani build directory: sharing one directory between different source trees let a
+        # run on /repo pick up goto binaries compiled from a mutated scratch tree (observed: stale counterexamples)
+        import hashlib
+        target = TARGET + '-scratch-' + hashlib.sha1(os.path.abspath(repo).encode()).hexdigest()[:10]
+    env['CARGO_TARGET_DIR'] = target
     # compile once (serialises on the cargo lock anyway); errors show up in the per-harness runs
     subprocess.run(['cargo', 'kani', '-Z', 'function-contracts', '-Z', 'stubbing', '--only-codegen'], cwd=repo, env=env,
                    stdout=subprocess.PIPE, stderr=subprocess.STDOUT, text=True)
@@ -122,7 +128,7 @@ def run(units, repo, tier, jobs=4):
             per.update(parse(out))
         kr = {'id': u['id'], 'title': u.get('title'), 'functions': u.get('functions', []), 'complete': u.get('complete', False),
               'bound': u.get('bound'), 'trusted': u.get('trusted', []),
-              'cmd': 'cd /repo && CARGO_TARGET_DIR=%s %s  (one invocation per harness: %s)' % (TARGET, ' '.join(cmd[:-1]), ', '.join(hs)),
+              'cmd': 'cd /repo && CARGO_TARGET_DIR=%s %s  (one invocation per harness: %s)' % (target, ' '.join(cmd[:-1]), ', '.join(hs)),
               'harnesses': [], 'checks': 0, 'checks_ok': 0, 'failures': [], 'wall_s': round(wall, 2)}
         if tos:
             kr.update(status='undecided', reason='kani timeout after %ds: %s' % (timeout, tos))
@@ -176,8 +182,11 @@ def run(units, repo, tier, jobs=4):
                                        'source_line': f.get('in'), 'output': out[-3000:] if not r.get('playback') else None,
                                        'witness': ({'kind': 'kani-concrete-playback', 'harness': r['name'],
                                                     'unit_test': r['playback'],
-                                                    'replay_cmd': 'cd /repo && CARGO_TARGET_DIR=%s cargo kani -Z concrete-playback --concrete-playback=print --harness %s' % (TARGET, h)}
+                                                    'replay_cmd': 'cd /repo && CARGO_TARGET_DIR=%s cargo kani -Z concrete-playback --concrete-playback=print --harness %s' % (target, h)}
                                                    if r.get('playback') else None)})
         kr['status'] = status
         results.append(kr)
+    if target != TARGET and not os.environ.get('VERIF_KEEP_KANI_SCRATCH'):
+        import shutil
+        shutil.rmtree(target, ignore_errors=True)
     return results
